@@ -85,6 +85,7 @@ type PReq struct {
 	IfRange       string      `json:"if_range,omitempty"` // literal; "@etag" / "@lastmod" are replaced by the validators of the last response this client saw
 	Hdr           [][2]string `json:"hdr,omitempty"`
 	AtMs          int64       `json:"at,omitempty"`
+	Expect100     bool        `json:"expect_100,omitempty"`  // with content: "Expect: 100-continue", the content follows a second after the head
 	HelloDelayMs  int64       `json:"hello_delay,omitempty"` // tunnel: time between the proxy's 200 and the client's ClientHello
 	ReadChunk     int         `json:"read_chunk,omitempty"`
 	Disconnect    int         `json:"disconnect,omitempty"` // 0 none; -1 right after sending; k>0 after k body bytes
@@ -165,7 +166,37 @@ func (w *proxyWorld) lingerForUnsolicited(cc *clientConn) string {
 	return ""
 }
 
+// awaitInterim: after the head of a request that expects "100 Continue" has gone out, look at what
+// has arrived within the second the client waited: an interim response (its status is returned and
+// it is consumed), nothing (0), or already a final response (-1, left unread).
+func (w *proxyWorld) awaitInterim(cc *clientConn, method string) int {
+	dl := time.Now().Add(time.Millisecond)
+	setDL := func(t time.Time) {
+		if cc.tls != nil {
+			cc.tls.SetReadDeadline(t)
+		} else {
+			cc.raw.SetReadDeadline(t)
+		}
+	}
+	setDL(dl)
+	defer setDL(time.Time{})
+	head, err := cc.br.Peek(12)
+	if err != nil || len(head) < 12 {
+		return 0
+	}
+	if !bytes.HasPrefix(head, []byte("HTTP/1.1 1")) {
+		return -1
+	}
+	resp, err := http.ReadResponse(cc.br, &http.Request{Method: method})
+	if err != nil {
+		return 0
+	}
+	return resp.StatusCode
+}
+
 type Exch struct {
+	LateInterim   bool
+	Interim       int    // Expect: 100-continue: status of the interim response that arrived before the content was sent (0 none, -1 a final response came first)
 	Unsolicited   string // bytes that arrived after the complete response although the client had said "Connection: close"
 	Client, Idx   int
 	Req           PReq
@@ -895,6 +926,9 @@ func (w *proxyWorld) buildRequest(q *PReq, last *Exch) (method string, wire []by
 	for _, kv := range q.Hdr {
 		fmt.Fprintf(&b, "%s: %s\r\n", kv[0], kv[1])
 	}
+	if q.Expect100 && q.Body > 0 {
+		b.WriteString("Expect: 100-continue\r\n")
+	}
 	if q.Body > 0 || method == "POST" || method == "PUT" || method == "PATCH" {
 		bd := body(7777, q.Body, q.Body)
 		if q.BodyIsRequest {
@@ -1034,7 +1068,22 @@ func (w *proxyWorld) clientTask(ci int) {
 			wire = append(pipeBuf, wire...)
 			pipeBuf = nil
 		}
-		if _, err := cc.rw.Write(wire); err != nil {
+		if hd := bytes.Index(wire, []byte("\r\n\r\n")); q.Expect100 && q.Raw == "" && len(pipe) == 0 && hd > 0 && hd+4 < len(wire) {
+			// "Expect: 100-continue": the head first, then a second for the interim answer (or a
+			// final one), then the content, as clients with an expectation do
+			if _, err := cc.rw.Write(wire[:hd+4]); err == nil {
+				w.sim.WaitUntil("harness:client-expect", time.Now().Add(time.Second))
+				ex.Interim = w.awaitInterim(cc, method)
+				wire = wire[hd+4:]
+				if ex.Interim == -1 {
+					wire = nil // a final answer came instead: the content is not sent
+				}
+				w.res.probe("expect_100_continue")
+			}
+		}
+		if len(wire) == 0 {
+			// nothing (more) to send: the answer is already there
+		} else if _, err := cc.rw.Write(wire); err != nil {
 			ex.Err = "write: " + err.Error()
 			ex.RecvSeq = w.nextSeq()
 			cc.close()
@@ -1098,6 +1147,14 @@ func (w *proxyWorld) clientTask(ci int) {
 // readResponse parses one response; returns whether the connection can be reused.
 func (w *proxyWorld) readResponse(cc *clientConn, ex *Exch, method string, q *PReq) bool {
 	resp, err := http.ReadResponse(cc.br, &http.Request{Method: method})
+	for err == nil && q.Expect100 && resp.StatusCode == 100 {
+		// an interim answer that came after the client had stopped waiting for it: clients skip it
+		if ex.Interim == 0 {
+			ex.Interim = 100
+			ex.LateInterim = true
+		}
+		resp, err = http.ReadResponse(cc.br, &http.Request{Method: method})
+	}
 	if err != nil {
 		ex.Err = "read response: " + err.Error()
 		return false
